@@ -411,6 +411,7 @@ fn hist_opts() -> GenOpts {
         composite_keys: true,
         alter: false,
         alter_col: false,
+        bystander: true,
         w_select: 1,
         w_begin: 2,
         max_rows_per_insert: 4,
